@@ -3,6 +3,7 @@ import FcpptModel.Model.C01
 import FcpptModel.Model.C01.Stream
 import FcpptModel.Model.C01.Path
 import FcpptModel.Model.C01.Env
+import FcpptModel.Model.C01.Vector
 import FcpptModel.Model.C15.Text
 import FcpptModel.Drv.C06
 /-!
@@ -70,6 +71,11 @@ def showOptStr : Option (List Nat) → String
   | some r => "some " ++ outStr r
   | none => "none"
 
+def showOptVec : M (Option (List Int)) → String
+  | .ok (some v) => "some " ++ (if v.isEmpty then "-" else intList v)
+  | .ok none => "none"
+  | .error e => e.name
+
 def showOptCode : Option Nat → String
   | some c => s!"some {c}"
   | none => "none"
@@ -124,6 +130,12 @@ def demangleAnswer : String → Option String
   | "PKc" => some "demangled s:char const*"
   | _ => none
 
+def fclassOf : String → Option FClass
+  | "0" | "-0" => some .zero
+  | "1" | "-1" | "denorm" | "-denorm" | "max" | "inf" | "-inf" => some .nonzero
+  | "nan" => some .nan
+  | _ => none
+
 def clsOf : String → Option Cls
   | "base" => some .base | "d1" => some .d1 | "d2" => some .d2 | "d3" => some .d3 | "m" => some .m | "iface" => some .iface
   | _ => none
@@ -145,6 +157,48 @@ def waitStatus : String → Option Nat
   | "segv" => some 11            -- (the core flag 0x80 may be set as well; it does not change WIFEXITED)
   | _ => none
 
+/-- MEASURED (libstdc++ 12 `num_get` for floating point, classic locale): what `extract_from_string<float / double>` answers on the
+fixed texts of the generator (hex of the text ↦ result for float, for double).  An oracle table, not a model. -/
+def floatAnswer : String → Option (String × String)
+  | "31" => some ("some finite", "some finite")
+  | "312e35" => some ("some finite", "some finite")
+  | "2d312e35" => some ("some finite", "some finite")
+  | "616263" => some ("none", "none")
+  | "" => some ("none", "none")
+  | "3165343030" => some ("none", "none")
+  | "31652d343030" => some ("some zero", "some zero")
+  | "31653338" => some ("some finite", "some finite")
+  | "31653339" => some ("none", "some finite")
+  | "31652d3436" => some ("some zero", "some finite")
+  | "6e616e" => some ("none", "none")
+  | "696e66" => some ("none", "none")
+  | "2d696e66" => some ("none", "none")
+  | "696e66696e697479" => some ("none", "none")
+  | "3078317033" => some ("none", "none")
+  | "312c35" => some ("none", "none")
+  | "313b35" => some ("none", "none")
+  | "312e3520" => some ("none", "none")
+  | "20312e35" => some ("some finite", "some finite")
+  | "3165" => some ("none", "none")
+  | "31652b" => some ("none", "none")
+  | "2b2e35" => some ("some finite", "some finite")
+  | "2e" => some ("none", "none")
+  | "2e35" => some ("some finite", "some finite")
+  | "352e" => some ("some finite", "some finite")
+  | "312e352e32" => some ("none", "none")
+  | "2d30" => some ("some zero", "some zero")
+  | "3165333038" => some ("none", "some finite")
+  | "3165333039" => some ("none", "none")
+  | "2d3165333039" => some ("none", "none")
+  | "31652d333233" => some ("some zero", "some finite")
+  | "31652d333234" => some ("some zero", "some zero")
+  | "313233343536373839303132333435363738393031323334353637383930" => some ("some finite", "some finite")
+  | "302e316531" => some ("some finite", "some finite")
+  | "314533" => some ("some finite", "some finite")
+  | "316433" => some ("none", "none")
+  | "3166" => some ("none", "none")
+  | _ => none
+
 /-- `extract_from_string<std::string>`: `>> word`, then the stream must be at its end -/
 def extractString (src : List Nat) : Option (List Nat) :=
   let (s, w) := Fcppt.C15.getWord (Fcppt.C15.IStream.ofString src)
@@ -158,6 +212,7 @@ def colorNames : List String := ["foo", "bar", "baz", "fo", "foobar"]
 /-- what the operating system answers for the scratch files the harness creates -/
 def osAnswer : String → Option (Option Nat)
   | "file0" => some (some 0) | "file5" => some (some 5) | "file4096" => some (some 4096)
+  | "sparse5g" => some (some 5368709120)
   | "symfile" => some (some 5)
   | "symsym" => some (some 5)
   | "dir" | "missing" | "dangling" | "dot" | "emptypath" | "dir2" | "sub" | "trailing" | "filetrailing" | "missingparent" => some none
@@ -242,6 +297,29 @@ def handle (toks : List String) : String :=
         | .ok none => "none"
         | .error e => e.name)
     | none => "bad-op"
+  | ["vdiv", ty, v, d] =>
+    match parseIntList v, d.toInt? with
+    | some v, some d =>
+      if ty = "i32" then showOptVec (vdiv_i32 v d) else if ty = "u32" then showOptVec (vdiv_u32 v d) else "bad-op"
+    | _, _ => "bad-op"
+  | ["vdivv", ty, l, r] =>
+    match parseIntList l, parseIntList r with
+    | some l, some r =>
+      if l.length ≠ r.length then "bad-op"
+      else if ty = "i32" then showOptVec (vdivv_i32 l r) else if ty = "u32" then showOptVec (vdivv_u32 l r) else "bad-op"
+    | _, _ => "bad-op"
+  | ["vmod", ty, v, d] =>
+    match parseIntList v, d.toInt? with
+    | some v, some d => if ty = "u32" then showOptVec (vmod_u32 v d) else "bad-op"
+    | _, _ => "bad-op"
+  | ["vmodv", ty, l, r] =>
+    match parseIntList l, parseIntList r with
+    | some l, some r => if l.length ≠ r.length then "bad-op" else if ty = "u32" then showOptVec (vmodv_u32 l r) else "bad-op"
+    | _, _ => "bad-op"
+  | ["vceildiv", ty, v, d] =>
+    match parseIntList v, d.toInt? with
+    | some v, some d => if ty = "i32" then showOptVec (vceildiv_i32 v d) else "bad-op"
+    | _, _ => "bad-op"
   | ["readchars", kind, s, count] =>
     match payload s, count.toNat? with
     | some cs, some count =>
@@ -406,6 +484,10 @@ def handle (toks : List String) : String :=
                 | .error e => e.name)
           else "bad-op"
         | none => "bad-op")
+    else if op = "atan2" then
+      (match fclassOf opt, fclassOf kind with
+        | some x, some y => (match vectorAtan2 x y with | none => "none" | some .nan => "some nan" | some _ => "some angle")
+        | _, _ => "bad-op")
     else if op = "cast" then
       (match clsOf opt, clsOf kind with
         | some target, some dyn =>
@@ -417,12 +499,24 @@ def handle (toks : List String) : String :=
         | some src =>
           let codes := src.map Char.toNat
           if opt = "string" then (match extractString codes with | some w => "some " ++ hexOut w | none => "none")
+          else if opt = "float" ∨ opt = "double" then
+            (match floatAnswer (kind.drop 2).toString with
+              | some (f, d) => if kind.startsWith "x:" then (if opt = "float" then f else d) else "bad-op"
+              | none => "bad-op")
           else
             (match extractDest opt with
               | some d => (match Fcppt.C15.extractFromString d codes with | some v => s!"some {v}" | none => "none")
               | none => "bad-op")
         | none => "bad-op")
     else Fcppt.C06.Drv.handle toks
+  | ["uptrstd", k] =>
+    if k = "null" ∨ k = "object" then (match uniquePtrFromStd (k = "object") with | some _ => "some" | none => "none") ++ " source-null" else "bad-op"
+  | ["weaklock", k] =>
+    -- (owners alive, including the one the harness keeps)
+    let owners : Option Nat := match k with | "live" => some 1 | "expired" => some 0 | "empty" => some 0 | _ => none
+    (match owners with
+      | some n => (match weakLock n with | some c => s!"some {c}" | none => "none 0")
+      | none => "bad-op")
   | ["getenv", n] =>
     match payload n with
     | some name => (match getenv harnessEnv name with | some v => "some s:" ++ String.ofList v | none => "none")
